@@ -61,6 +61,9 @@ type oracles struct {
 	lastCCID      uint64
 	latest        *memView
 	memByCCID     map[uint64]*memView
+	readConf      map[int]map[pb.SystemCtx]map[uint64]bool
+	readWatch     map[int]*readWatch
+	dupReadIndex  int
 	lastMem       []*memView        // last membership observed per host
 	everRemoved   map[uint64]uint64 // replica id -> ccid at which it was seen removed
 	maxCommitted  uint64
@@ -76,6 +79,8 @@ func newOracles(s *Sim) *oracles {
 		leaderOfTerm: map[uint64]uint64{}, results: map[*Client]int{}, stateSet: map[uint64]struct{}{}}
 	// the network never duplicates for C01 (its quantifier excludes it)
 	o.memByCCID = map[uint64]*memView{}
+	o.readConf = map[int]map[pb.SystemCtx]map[uint64]bool{}
+	o.readWatch = map[int]*readWatch{}
 	o.everRemoved = map[uint64]uint64{}
 	o.lastMem = make([]*memView, s.cfg.Hosts)
 	o.allowDup = s.ctx.Property != "C01"
@@ -274,6 +279,8 @@ func (o *oracles) afterStep() {
 		}
 		st, ok := o.peek(h)
 		if !ok {
+			delete(o.readWatch, h.id)
+			delete(o.readConf, h.id)
 			sig = sig*1099511628211 ^ 0xdead
 			continue
 		}
@@ -303,6 +310,7 @@ func (o *oracles) afterStep() {
 		if eff > o.maxCommitted {
 			o.maxCommitted = eff
 		}
+		o.checkReadConfirmation(h, st)
 		quiet := o.hostQuiet(h)
 		if o.checkRecovery[h.id] {
 			if fst, ok := o.peekFull(h); ok {
@@ -627,7 +635,105 @@ func (o *oracles) checkRecovered(h *Host, st raft.VerifState) {
 	}
 }
 
-func (o *oracles) onDeliver(from, to int, mb pb.MessageBatch) {}
+// onDeliver records which replicas have answered which ReadIndex confirmation
+// round (heartbeat responses echoing the hint) of which host.
+func (o *oracles) onDeliver(from, to int, mb pb.MessageBatch) {
+	for _, m := range mb.Requests {
+		if m.Type == pb.HeartbeatResp && (m.Hint != 0 || m.HintHigh != 0) {
+			ctx := pb.SystemCtx{Low: m.Hint, High: m.HintHigh}
+			if o.readConf[to] == nil {
+				o.readConf[to] = map[pb.SystemCtx]map[uint64]bool{}
+			}
+			if o.readConf[to][ctx] == nil {
+				o.readConf[to][ctx] = map[uint64]bool{}
+			}
+			o.readConf[to][ctx][m.From] = true
+		}
+	}
+}
+
+type readWatch struct {
+	leader  bool
+	term    uint64
+	pending []pb.SystemCtx
+	members string
+}
+
+// checkReadConfirmation (C18): a pending ReadIndex round of a leader that
+// disappears from its queue while it stays leader of the same term was
+// confirmed; the replicas whose echoes had been delivered by then, without the
+// non-voting ones, plus the leader itself must be a majority of voters +
+// witnesses. Skipped when the leader's membership changed in the same step.
+func (o *oracles) checkReadConfirmation(h *Host, st raft.VerifState) {
+	s := o.s
+	members := ""
+	voting := 0
+	kind := map[uint64]string{}
+	for _, rm := range st.Remotes {
+		members += fmt.Sprintf("%d%s,", rm.ReplicaID, rm.Kind)
+		kind[rm.ReplicaID] = rm.Kind
+		if rm.Kind != "nonvoting" {
+			voting++
+		}
+	}
+	prev := o.readWatch[h.id]
+	cur := &readWatch{leader: st.Role == "Leader", term: st.Term, members: members,
+		pending: append([]pb.SystemCtx(nil), st.PendingReads...)}
+	o.readWatch[h.id] = cur
+	if prev != nil && (len(prev.pending) > 0 || len(cur.pending) > 0) && fmt.Sprint(prev.pending) != fmt.Sprint(cur.pending) {
+		s.ctx.Tracef("reads h%d leader=%t term=%d pending %v -> %v conf=%v", h.id+1, cur.leader, cur.term, prev.pending, cur.pending, o.readConf[h.id])
+	}
+	if prev == nil || !prev.leader || !cur.leader || prev.term != cur.term || prev.members != cur.members || len(prev.pending) == 0 {
+		if !cur.leader {
+			delete(o.readConf, h.id)
+		}
+		return
+	}
+	still := map[pb.SystemCtx]bool{}
+	for _, c := range cur.pending {
+		still[c] = true
+	}
+	// the queue is released front to back: the last one gone is the confirmed one
+	last := -1
+	for i, c := range prev.pending {
+		if !still[c] {
+			last = i
+		}
+	}
+	if last < 0 {
+		return
+	}
+	if o.dupReadIndex > 0 {
+		// the network duplicated a forwarded ReadIndex message (outside the fault
+		// model of C06/C18, which names heartbeat duplication): the same round id
+		// can then be queued a second time behind later rounds, and a late echo
+		// of its first life releases those too - seen, recorded in DESIGN.md as an
+		// observation, not judged here
+		s.ctx.Count("probe.readindex_round_after_dup_readindex", 1)
+		return
+	}
+	ctx := prev.pending[last]
+	n := 1 // the leader itself
+	var who []uint64
+	for id := range o.readConf[h.id][ctx] {
+		if id != st.ReplicaID && kind[id] != "nonvoting" {
+			n++
+		}
+		who = append(who, id)
+	}
+	sort.Slice(who, func(i, j int) bool { return who[i] < who[j] })
+	s.ctx.Count("probe.readindex_round_confirmed", 1)
+	if n < voting/2+1 {
+		// C06: "answered only by a replica that was confirmed as leader by a quorum
+		// of voting members after it received the request" - the echoes of this
+		// very round, not of an earlier one
+		s.ctx.Violate("C06", "unconfirmed-round", "leader %d (term %d, members %s) released ReadIndex round %d/%d although the echoes of that round delivered to it came from %v only: %d of %d voting members incl. itself, quorum is %d", st.ReplicaID, st.Term, members, ctx.Low, ctx.High, who, n, voting, voting/2+1)
+		s.ctx.Violate("C18", "read-quorum", "leader %d (term %d, members %s) released ReadIndex round %d/%d when the echoes delivered to it came from %v: %d of %d voting members incl. itself, quorum is %d", st.ReplicaID, st.Term, members, ctx.Low, ctx.High, who, n, voting, voting/2+1)
+	}
+	for i := 0; i <= last; i++ {
+		delete(o.readConf[h.id], prev.pending[i])
+	}
+}
 
 // pendingReq is an abandoned request that must still terminate (C12).
 type pendingReq struct {
